@@ -16,6 +16,8 @@ func init() {
 }
 
 func runC03(r *engine.Run) {
+	r.Rule("DOM-askstore", "getNode returns an error only after it asked the trie's store (no remembered miss): a child reads its parent's content through the parent's store, and a node that was absent once may be there now")
+	r.Rule("PURE-accessor", "the read accessors of the change collector (GetChanges, GetDeletes, GetStartRoot) store nothing into the collector: a kept listing of the delete set that is not dropped where a re-created node leaves the set makes the merge delete a live node in the parent")
 	r.Rule("WHO-prev", "in every method of LevelNodeDB a call on the parent level (value loaded from field prev) is a read (GetNode, MultiGetNode, Iterate, Size) or a DeleteNode reached only with PropagateDeletes true; every PutNode/MultiPutNode goes to the current level")
 	r.Rule("DOM-merge", "in mergeChanges every insertNode/deleteNode/setRoot is reached only when bytes.Equal(trie root, child's start root) held; in MergeMPTChanges the merge is reached only when the child's store is a *LevelNodeDB whose previous level is this trie's store")
 	r.Rule("CLONE-store", "MemoryNodeDB stores CloneNode() of the node it is given (never the caller's object); the trie populates its node cache only through TransactionCache.Set (which clones, C07)")
@@ -46,6 +48,8 @@ func runC03(r *engine.Run) {
 	mptLockDiscipline(r)
 	domSameKey(r, "DOM-samekey")
 	cloneDeep(r)
+	askStore(r, "DOM-askstore")
+	pureAccessors(r, "PURE-accessor")
 }
 
 func whoPrev(r *engine.Run) {
